@@ -101,6 +101,28 @@ def proto_alias_with_enums():
     return "proto-alias-with-enums", [f1, f2, f3], [f1, f2, f3], ["field / message / nested enum named proto, with top-level and nested enums"]
 
 
+def underscore_oneofs():
+    """Declared oneofs whose names start with an underscore: alone, before another declared oneof, next to proto3 optional."""
+    f = File(f"{D}/legacy.proto", P)
+    e = f.enum("Kind", ["KIND_UNSPECIFIED", "OLD", "NEW"])
+    sub = f.message("Sub"); sub.field("n", 1, "int32")
+    alone = f.message("Alone")
+    alone.field("id", 1, "string").field("code", 2, "int32", oneof="_legacy_kind").field("label", 3, "string", oneof="_legacy_kind")
+    alone.field("sub", 4, sub.fqn, oneof="_legacy_kind")
+    two = f.message("Two")
+    two.field("code", 1, "int32", oneof="_legacy_kind").field("label", 2, "string", oneof="_legacy_kind")
+    two.field("kind", 3, ("enum", e), oneof="modern").field("flag", 4, "bool", oneof="modern").field("plain", 5, "bytes")
+    mixed = f.message("Mixed")
+    mixed.field("a", 1, "sint64", oneof="_first").field("b", 2, "string", oneof="_first")
+    mixed.field("c", 3, "uint32", oneof="second").field("d", 4, sub.fqn, oneof="second")
+    mixed.field("e", 5, "double", oneof="_third").field("f", 6, ("enum", e), oneof="_third")
+    mixed.field("opt", 7, "int32", optional=True).field("opt_s", 8, "string", optional=True).field("opt_m", 9, sub.fqn, optional=True)
+    inner = mixed.nested("Inner")
+    inner.field("x", 1, "fixed32", oneof="_only").field("y", 2, "bool", optional=True)
+    mixed.field("inner", 10, inner.fqn)
+    return "underscore-oneofs", [f], [f], ["declared oneofs named with a leading underscore: alone, before another oneof, with proto3 optional"]
+
+
 def enum_negative():
     f = File(f"{D}/main.proto", P)
     e = f.enum("Temp", ["TEMP_UNSPECIFIED", ("HOT", 1), ("COLD", -1)])
@@ -112,7 +134,7 @@ def main():
     d = os.path.join(env.VERIF, "corpus", "C02")
     os.makedirs(d, exist_ok=True)
     for name, files, togen, feats in [kitchen_sink(), pb2_clash(False), pb2_clash(True), pb2_clash(False, "fab.baz"),
-                                      rel_misfire(False), rel_misfire(True), module_named_field(), proto_alias_with_enums(),
+                                      rel_misfire(False), rel_misfire(True), module_named_field(), proto_alias_with_enums(), underscore_oneofs(),
                                       enum_negative()]:
         req = apigen.request(files, to_generate=[f.proto.name for f in togen], parameter="transport=grpc")
         with open(os.path.join(d, name + ".json"), "w") as fh:
